@@ -712,9 +712,9 @@ pub fn property() -> Property {
         subs: vec![
             Box::new(PropSub {
                 name: "C20/orf",
-                quick: 400_000,
+                quick: 1_000_000,
                 thorough: 10_000_000,
-                shards_quick: 8,
+                shards_quick: 16,
                 shards_thorough: 16,
                 strat: orf::strat,
                 check: orf::check,
@@ -733,9 +733,9 @@ pub fn property() -> Property {
             }),
             Box::new(ExhSub { name: "C20/orf-exhaustive", enumerate: orf::enumerate, check: orf::check, must_reach: &["nested starts (same stop)"] }),
             Box::new(ExhSub { name: "C20/complement-exhaustive", enumerate: comp::enumerate_bytes, check: comp::check_byte, must_reach: &["lower-case code", "non-nucleotide byte", "self-complementary code"] }),
-            Box::new(PropSub { name: "C20/revcomp", quick: 80_000, thorough: 2_000_000, shards_quick: 2, shards_thorough: 8, strat: comp::strat_seq, check: comp::check_seq, must_reach: &["lower-case nucleotides", "non-nucleotide bytes", "rna", "dna"], watch: false }),
-            Box::new(PropSub { name: "C20/alphabet", quick: 60_000, thorough: 1_500_000, shards_quick: 4, shards_thorough: 8, strat: alpha::strat, check: alpha::check, must_reach: &["alphabet of size 1", "alphabet of size 256", "empty alphabet", "text with a non-member", "library alphabet"], watch: false }),
-            Box::new(PropSub { name: "C20/gc", quick: 80_000, thorough: 2_000_000, shards_quick: 2, shards_thorough: 8, strat: gc::strat, check: gc::check, must_reach: &["lower-case g/c", "gc3 differs from gc", "length 1"], watch: false }),
+            Box::new(PropSub { name: "C20/revcomp", quick: 240_000, thorough: 2_000_000, shards_quick: 16, shards_thorough: 8, strat: comp::strat_seq, check: comp::check_seq, must_reach: &["lower-case nucleotides", "non-nucleotide bytes", "rna", "dna"], watch: false }),
+            Box::new(PropSub { name: "C20/alphabet", quick: 180_000, thorough: 1_500_000, shards_quick: 16, shards_thorough: 8, strat: alpha::strat, check: alpha::check, must_reach: &["alphabet of size 1", "alphabet of size 256", "empty alphabet", "text with a non-member", "library alphabet"], watch: false }),
+            Box::new(PropSub { name: "C20/gc", quick: 240_000, thorough: 2_000_000, shards_quick: 16, shards_thorough: 8, strat: gc::strat, check: gc::check, must_reach: &["lower-case g/c", "gc3 differs from gc", "length 1"], watch: false }),
         ],
     }
 }
